@@ -355,6 +355,16 @@ def new_numbered_group(ctx, name="/events/contour", vals=None, size=None):
 
 
 def _grp_lookup(interp, obj, key):
+    if isinstance(key, str) and "/" in key.strip("/"):
+        # nested name "a/b": walk the groups
+        cur = obj
+        for part in key.strip("/").split("/"):
+            if not (isinstance(cur, SObj) and cur.clsname == "H5Group"):
+                return False, None
+            found, cur = _grp_lookup(interp, cur, part)
+            if not found:
+                return False, None
+        return True, cur
     num = models.numeric_name(key)
     if num is not None and "num_dom" in obj.fields:
         if interp.ctx.decide(wrap(z3.Select(obj.fields["num_dom"], num))):
@@ -377,6 +387,9 @@ def _grp_lookup(interp, obj, key):
 def _grp_contains(interp, obj, key):
     if isinstance(key, SObj):
         return False
+    if isinstance(key, str) and "/" in key.strip("/"):
+        found, _ = _grp_lookup(interp, obj, key)
+        return found
     m, maybe = obj.fields["members"], obj.fields["maybe"]
     if key in m:
         return True
@@ -529,3 +542,31 @@ def _kind_of_dtype(dtype):
     if dt.kind == "b":
         return "bool"
     return "elem"
+
+
+OBJ_METHODS[("WarnCtx", "__enter__")] = models._warnctx_enter
+OBJ_METHODS[("WarnCtx", "__exit__")] = models._warnctx_exit
+
+
+# paths with symbolic components --------------------------------------------------
+@method("SymPath", "with_suffix")
+def _sp_with_suffix(interp, p, suffix):
+    return interp.ctx.obj("SymPath", {"parent": p.fields["parent"], "name": p.fields["name"],
+                                      "suffix": suffix, "of": p})
+
+
+@method("SymPath", "rename")
+def _sp_rename(interp, p, target):
+    interp.ctx.__dict__.setdefault("fs_log", []).append(("rename", p, target))
+    return target
+
+
+@method("SymPath", "exists")
+def _sp_exists(interp, p):
+    return interp.ctx.bool("exists_sympath")
+
+
+@method("SymPath", "unlink")
+def _sp_unlink(interp, p, *a, **k):
+    interp.ctx.__dict__.setdefault("fs_log", []).append(("unlink", p))
+    return None
